@@ -13,6 +13,7 @@ import dataclasses
 import enum
 import glob
 import os
+import re
 import sys
 import textwrap
 import types
@@ -102,7 +103,7 @@ FLOORS = {
         "unary_cases": 30000, "law_evaluations": 2600000, "random_cases": 10000, "subst_changed": 8000,
         "subst_identity_checked": 50000, "subst_commutes_checked": 50000, "eq_pairs_hash_checked": 600000,
         "accepts_true": 200000, "insitu_contract_evaluations": 1500, "insitu_programs": 55,
-        "nesting_cases": 1700, "nesting_pair_cases": 1700, "neighbour_pair_cases": 100, "subst_by_parts_checked": 30000,
+        "nesting_cases": 1700, "nesting_pair_cases": 1700, "neighbour_pair_cases": 100, "subst_by_parts_checked": 25000,
         "subst_under_type_of_container": 1500,
     },
     "thorough": {
@@ -110,6 +111,8 @@ FLOORS = {
         "unary_cases": 150000, "law_evaluations": 10000000, "random_cases": 50000, "subst_changed": 40000,
         "subst_identity_checked": 250000, "subst_commutes_checked": 250000, "eq_pairs_hash_checked": 2500000,
         "accepts_true": 800000, "insitu_contract_evaluations": 6000, "insitu_programs": 220,
+        "nesting_cases": 19000, "nesting_pair_cases": 57000, "neighbour_pair_cases": 100,
+        "subst_by_parts_checked": 340000, "subst_under_type_of_container": 36000,
     },
 }
 NSHARDS = 16
@@ -949,6 +952,9 @@ def minimise(ops, mapspec, law, reason, budget: int = 400):
     return ops, (maps[0] if maps else None)
 
 
+_ADDRESS = re.compile(r" at 0x[0-9a-fA-F]+")
+
+
 class Recorder:
     """Turns law failures into ctx.violation with a mechanism key and a (minimised) replayable witness."""
 
@@ -977,7 +983,7 @@ class Recorder:
             "kind": "laws", "law": law, "key": key, "ops": ops, "map": mapspec,
             "expr": [vg.to_expr(s) for s in ops] + ([vg.map_expr(mapspec)] if mapspec else []),
         }
-        self.ctx.violation(key, what[:600], witness)
+        self.ctx.violation(key, _ADDRESS.sub("", what)[:600], witness)
 
 
 # ---------------------------------------------------------------------------
